@@ -458,29 +458,7 @@ func runC04R3R4(c *Ctx) {
 				c.bad(rule, key, p.Exit, "a session is returned although email_verified may be present and false", p, at)
 			}
 		})
-		c.Walk(rule, bearer, func(p *walk.Path) {
-			rv, ok := p.ReturnDV(0)
-			if !ok || DefinitelyNil(p, rv, p.End()) {
-				return
-			}
-			at := p.End()
-			key := "success-return|" + fnKey(bearer)
-			// claims.Verified == nil, or *claims.Verified true
-			okGate := false
-			for _, a := range p.Atoms(at) {
-				if a.IsNil && a.Val && isNamedFieldLoad(a.DV.V, "Verified") {
-					okGate = true
-				}
-				if u, ok := a.DV.V.(*ssa.UnOp); ok && !a.IsNil && a.Val && u.Op == token.MUL && isNamedFieldLoad(u.X, "Verified") {
-					okGate = true
-				}
-			}
-			if okGate {
-				c.ok(rule, key, p.Exit, "email_verified absent (nil) or true")
-			} else {
-				c.bad(rule, key, p.Exit, "a bearer session is returned although email_verified may be present and false", p, at)
-			}
-		})
+		runBearerEmailVerified(c, rule)
 	}
 }
 
@@ -834,5 +812,40 @@ func runIssuerCheckOn(c *Ctx, rule string) {
 	}
 	if n == 0 {
 		c.R.Unknown(rule, "skip-issuer-write|none", "-", "no write of ProviderVerifierOptions.SkipIssuerVerification found")
+	}
+}
+
+// runBearerEmailVerified: the bearer-token session builder returns a session only with email_verified
+// absent (nil pointer after typed decoding) or true (C04.R4, also C14: a wrongly typed claim fails the
+// typed decoding instead of slipping past a type assertion).
+func runBearerEmailVerified(c *Ctx, rule string) {
+	bearer := c.Fn(rule, "pkg/apis/middleware.CreateTokenToSessionFunc$1")
+	if bearer == nil {
+		return
+	}
+	{
+		c.Walk(rule, bearer, func(p *walk.Path) {
+			rv, ok := p.ReturnDV(0)
+			if !ok || DefinitelyNil(p, rv, p.End()) {
+				return
+			}
+			at := p.End()
+			key := "success-return|" + fnKey(bearer)
+			// claims.Verified == nil, or *claims.Verified true
+			okGate := false
+			for _, a := range p.Atoms(at) {
+				if a.IsNil && a.Val && isNamedFieldLoad(a.DV.V, "Verified") {
+					okGate = true
+				}
+				if u, ok := a.DV.V.(*ssa.UnOp); ok && !a.IsNil && a.Val && u.Op == token.MUL && isNamedFieldLoad(u.X, "Verified") {
+					okGate = true
+				}
+			}
+			if okGate {
+				c.ok(rule, key, p.Exit, "email_verified absent (nil) or true")
+			} else {
+				c.bad(rule, key, p.Exit, "a bearer session is returned although email_verified may be present and false", p, at)
+			}
+		})
 	}
 }
